@@ -31,6 +31,9 @@ type ProgCfg struct {
 	VDR bool
 	// Values config for literals.
 	Values ValueCfg
+	// NoChainedMaps: split sources are never outputs of mapped calls or of
+	// pipelines (whatever MapLevel allows otherwise).
+	NoChainedMaps bool
 	// Views: some stage inputs are structs mirroring the outputs of an
 	// earlier stage (whole calls get bound to them).
 	Views bool
@@ -87,6 +90,8 @@ type pgen struct {
 	forceMerged *source
 	// reserved: index of a parameter genMapSources must leave alone (-1: none).
 	reserved int
+	// mustSplit: index of the parameter a map call has to split over (-1: any).
+	mustSplit int
 	// ext: cache of extU.
 	ext  *Universe
 	extN int
@@ -300,7 +305,7 @@ func (g *pgen) structToMap(dst, src Ty, depth int) bool {
 // GenProgram draws a well-typed program with a top-level call.
 func GenProgram(t *rapid.T, cfg *ProgCfg) *Program {
 	u := GenUniverse(t, UniverseCfg{MaxStructs: 3, MaxWider: 2, MaxFields: 3, NoFiles: cfg.NoFiles})
-	g := &pgen{t: t, cfg: cfg, u: u, prog: &Program{U: u}, reserved: -1}
+	g := &pgen{t: t, cfg: cfg, u: u, prog: &Program{U: u}, reserved: -1, mustSplit: -1}
 	ns := rapid.IntRange(1, max(1, cfg.MaxStages)).Draw(t, "nStages")
 	for i := 0; i < ns; i++ {
 		g.prog.Stages = append(g.prog.Stages, g.genStage(i))
@@ -842,6 +847,10 @@ func (g *pgen) genPipeline(idx int, isTop bool) {
 				callee = g.prog.Stages[0].Name
 			}
 		}
+		if g.cfg.Exclude["mapped-pipeline-called-again"] && g.prog.Pipeline(callee) != nil && g.sharesWithMappedPipeline(callee) {
+			g.excluded("mapped-pipeline-called-again")
+			callee = g.prog.Stages[0].Name
+		}
 		if !g.chain && rapid.IntRange(0, 2).Draw(t, "consumeMerged") == 0 {
 			// a stage that can take the merged output of an earlier map
 			// call of this pipeline
@@ -1060,10 +1069,53 @@ func (g *pgen) genCallBindings(c *Call) {
 			}
 		}
 	}
+	if g.prog.Pipeline(c.Callee) != nil && mayMap && g.cfg.Exclude["mapped-pipeline-called-again"] {
+		// known finding: a pipeline that is map-called and called once
+		// more (mapped or not) - two instances of the same call statements,
+		// fork ids are matched by call statement
+		mine := map[string]bool{}
+		g.reachablePipelines(c.Callee, mine)
+		for _, opl := range append(append([]*Pipeline{}, g.prog.Pipelines...), g.pl) {
+			for _, oc := range opl.Calls {
+				theirs := map[string]bool{}
+				g.reachablePipelines(oc.Callee, theirs)
+				for name := range theirs {
+					if mine[name] {
+						mayMap = false
+					}
+				}
+			}
+		}
+		if !mayMap {
+			g.excluded("mapped-pipeline-called-again")
+		}
+	}
+	g.mustSplit = -1
+	if pl := g.prog.Pipeline(c.Callee); pl != nil && mayMap && g.cfg.Exclude["mapped-pipeline-constant-output"] {
+		// known finding: an output of a mapped pipeline that does not come
+		// from a call (a pass-through of an input, a literal) is left as an
+		// unresolved merge expression unless it is the element itself.
+		req, ok := g.passThroughParams(pl)
+		switch {
+		case !ok || len(req) > 1:
+			mayMap = false
+			g.excluded("mapped-pipeline-constant-output")
+		case len(req) == 1:
+			for i, in := range ins {
+				if in.Name == req[0] {
+					g.mustSplit = i
+				}
+			}
+			if g.mustSplit == mergedIdx || ins[g.mustSplit].Flag {
+				mayMap = false
+			}
+		}
+	}
 	if mayMap && rapid.IntRange(0, 2).Draw(t, "mapCall") == 0 {
 		mapShape, mapKind, splitIdx = g.genMapSources(c, ins)
 	}
 	g.reserved = -1
+	g.mustSplit = -1
 	if mergedIdx >= 0 {
 		splitIdx[mergedIdx] = true // bound above
 	}
@@ -1285,6 +1337,136 @@ func exprUsesCall(e Expr) bool {
 	return false
 }
 
+// markNonEmpty: the stage output a pipeline is mapped over is never empty at
+// run time while the known finding about empty collections is listed.
+func (g *pgen) markNonEmpty(c *Call, s source) {
+	if g.prog.Stage(c.Callee) != nil || !g.cfg.Exclude["mapped-pipeline-over-empty"] || s.call == "" {
+		return
+	}
+	if pc := g.pl.Call(s.call); pc != nil {
+		if st := g.prog.Stage(pc.Callee); st != nil {
+			for i := range st.Outs {
+				if st.Outs[i].Name == s.ref.Out {
+					st.Outs[i].NonEmpty = true
+					g.excluded("mapped-pipeline-over-empty")
+				}
+			}
+		}
+	}
+}
+
+// sharesWithMappedPipeline: does calling the pipeline create a second
+// instance of call statements of which a map-called instance exists?
+func (g *pgen) sharesWithMappedPipeline(callee string) bool {
+	mine := map[string]bool{}
+	g.reachablePipelines(callee, mine)
+	for _, opl := range append(append([]*Pipeline{}, g.prog.Pipelines...), g.pl) {
+		for _, oc := range opl.Calls {
+			if !oc.Mapped || g.prog.Pipeline(oc.Callee) == nil {
+				continue
+			}
+			theirs := map[string]bool{}
+			g.reachablePipelines(oc.Callee, theirs)
+			for name := range theirs {
+				if mine[name] {
+					return true
+				}
+			}
+		}
+	}
+	return false
+}
+
+// passThroughParams lists the inputs of a pipeline that its call-free return
+// bindings refer to; ok is false if a return binding is a pure literal (or
+// mixes several inputs).
+func (g *pgen) passThroughParams(pl *Pipeline) ([]string, bool) {
+	seen := map[string]bool{}
+	var req []string
+	for _, b := range pl.Ret {
+		if exprUsesCall(b.E) {
+			// (an output of a call that may be disabled by a constant flag
+			// is a constant null as well)
+			disabled := false
+			var walkC func(e Expr)
+			walkC = func(e Expr) {
+				switch x := e.(type) {
+				case Ref:
+					if pc := pl.Call(x.Call); pc != nil && pc.Disabled != nil {
+						disabled = true
+					}
+				case ArrayLit:
+					for _, el := range x.Elems {
+						walkC(el)
+					}
+				case MapLit:
+					for _, el := range x.Vals {
+						walkC(el)
+					}
+				case StructLit:
+					for _, el := range x.Vals {
+						walkC(el)
+					}
+				}
+			}
+			walkC(b.E)
+			if disabled {
+				return nil, false
+			}
+			continue
+		}
+		var selfs []string
+		var walk func(e Expr)
+		walk = func(e Expr) {
+			switch x := e.(type) {
+			case Ref:
+				selfs = append(selfs, x.Out)
+			case ArrayLit:
+				for _, el := range x.Elems {
+					walk(el)
+				}
+			case MapLit:
+				for _, el := range x.Vals {
+					walk(el)
+				}
+			case StructLit:
+				for _, el := range x.Vals {
+					walk(el)
+				}
+			}
+		}
+		walk(b.E)
+		if len(selfs) != 1 {
+			return nil, false
+		}
+		if r, isRef := b.E.(Ref); !isRef || len(r.Path) > 0 {
+			return nil, false
+		}
+		if !seen[selfs[0]] {
+			seen[selfs[0]] = true
+			req = append(req, selfs[0])
+		}
+	}
+	return req, true
+}
+
+// holdsTypedMap: is there a typed map anywhere inside values of the type
+// (through struct members, also of callable output structs)?
+func (g *pgen) holdsTypedMap(ty Ty, depth int) bool {
+	if ty.Map > 0 {
+		return true
+	}
+	if depth > 6 {
+		return false
+	}
+	for _, f := range g.structFields(ty.Base) {
+		if g.holdsTypedMap(f.T, depth+1) {
+			return true
+		}
+	}
+	return false
+}
+
 // insertProducer adds a plain (not mapped, not disabled) call of a stage with
 // an output of exactly type ty to the current pipeline and returns that
 // output as a source.
@@ -1347,7 +1529,13 @@ func (g *pgen) genMapSources(c *Call, ins []Param) (shape, kind string, idx map[
 			}
 		}
 	}
+	if g.mustSplit >= 0 {
+		first = g.mustSplit
+	}
 	if first == g.reserved && g.reserved >= 0 {
+		if g.mustSplit >= 0 {
+			return "", "", idx
+		}
 		first = (first + 1) % len(ins)
 	}
 	in := ins[first]
@@ -1355,10 +1543,32 @@ func (g *pgen) genMapSources(c *Call, ins []Param) (shape, kind string, idx map[
 		return "", "", idx
 	}
 	wantMap := in.T.Map == 0 && in.T.Base != "map" && rapid.IntRange(0, 2).Draw(t, "overMap") == 0
-	if _, outs, _ := g.prog.Callable(c.Callee); wantMap {
+	if _, outs, isStage := g.prog.Callable(c.Callee); wantMap {
 		for _, o := range outs {
 			if o.T.Map > 0 || o.T.Base == "map" {
 				wantMap = false // the map call would produce a nested map
+			} else if !isStage && g.holdsTypedMap(o.T, 0) && g.excluded("mapped-pipeline-over-map-with-map-member") {
+				// known finding: a pipeline mapped over a typed map whose
+				// outputs hold a typed map inside a struct
+				wantMap = false
+			}
+		}
+		if wantMap && !isStage && g.cfg.Exclude["mapped-pipeline-over-map-with-map-member"] {
+			// ... or which contains (at any depth) a call with such an output
+			inside := map[string]bool{}
+			g.reachablePipelines(c.Callee, inside)
+			for name := range inside {
+				for _, ic := range g.prog.Pipeline(name).Calls {
+					_, iouts, _ := g.prog.Callable(ic.Callee)
+					for _, o := range iouts {
+						if g.holdsTypedMap(o.T, 0) || o.T.Base == "map" {
+							wantMap = false
+						}
+					}
+				}
+			}
+			if !wantMap {
+				g.excluded("mapped-pipeline-over-map-with-map-member")
 			}
 		}
 	}
@@ -1387,7 +1597,24 @@ func (g *pgen) genMapSources(c *Call, ins []Param) (shape, kind string, idx map[
 		if s.maybeDisabled && g.excluded("split-over-disabled-call-output") {
 			return false
 		}
-		if g.cfg.MapLevel == 1 && s.call != "" {
+		if g.prog.Stage(c.Callee) == nil && g.cfg.Exclude["mapped-pipeline-over-empty"] {
+			// known finding: stages of a mapped pipeline that do not use
+			// the element run although the collection is empty at run
+			// time.  Sources of mapped pipelines are direct stage outputs
+			// (marked never-empty below), literals, or top-level inputs.
+			if s.call == "" && !g.isTop {
+				g.excluded("mapped-pipeline-over-empty")
+				return false
+			}
+			if s.call != "" {
+				pc := g.pl.Call(s.call)
+				if pc == nil || g.prog.Stage(pc.Callee) == nil || pc.Mapped || len(s.ref.Path) > 0 || s.ref.Out == "" {
+					g.excluded("mapped-pipeline-over-empty")
+					return false
+				}
+			}
+		}
+		if (g.cfg.MapLevel == 1 || g.cfg.NoChainedMaps) && s.call != "" {
 			if pc := g.pl.Call(s.call); pc != nil && (pc.Mapped || g.prog.Stage(pc.Callee) == nil) {
 				return false // no chained maps at level 1
 			}
@@ -1431,6 +1658,7 @@ func (g *pgen) genMapSources(c *Call, ins []Param) (shape, kind string, idx map[
 		}
 		s := cs[rapid.IntRange(0, len(cs)-1).Draw(t, "splitCand")]
 		e, shape = s.ref, s.shape
+		g.markNonEmpty(c, s)
 	case roll < 8 && len(g.pl.Ins) < 8:
 		s := g.newInput(collT, false)
 		e, shape = s.ref, s.shape
@@ -1480,6 +1708,7 @@ func (g *pgen) genMapSources(c *Call, ins []Param) (shape, kind string, idx map[
 		}
 		if len(same) > 0 {
 			s := same[rapid.IntRange(0, len(same)-1).Draw(t, "splitCand2")]
+			g.markNonEmpty(c, s)
 			c.Bindings = append(c.Bindings, Binding{Param: other.Name, E: Split{E: s.ref}})
 			idx[j] = true
 			g.markSplitSrc(s.ref)
